@@ -28,6 +28,7 @@ type frame struct {
 	curIns ssa.Instruction
 	slot   int
 	depth  int
+	bufs   []*AObj
 }
 
 var frameCounter int
@@ -410,6 +411,9 @@ func (sa *Safe) analyzeFunc(fr *frame, args []AVal, st0 *State) callResult {
 					vals = append(vals, sa.val(fr, st, r))
 				}
 				retAt[bi] = retCase{st, vals}
+				if sa.LenRule {
+					sa.checkLenCovers(fr, st, x.Pos())
+				}
 				done = true
 			case *ssa.Panic:
 				sa.oblige("safe.panic", fn, "panic("+exprText(x.X)+")", x.Pos(), st.dead, "explicit panic is reachable")
